@@ -140,7 +140,7 @@ func init() {
 	reg(&Prop{ID: "C14", Level: "exploration",
 		Quick:    Tier{Cases: 48000, PerJob: 3000, Seconds: 70},
 		Thorough: Tier{Cases: 2400000, PerJob: 40000, Seconds: 1500},
-		Rule:     "one case = one of {chunk GET/HEAD/PUT through the real RemoteHTTP client and HTTPHandler over an in-process transport, for every combination of client/server -u, upstream format, verify flags per hop; index GET/PUT through RemoteHTTPIndex and HTTPIndexHandler (optionally chained behind a second index server) and HEAD on the index handler; a casync-protocol session of 1..8 requests against ProtocolServer over a pipe with byte-wise fragmentation and the connection cut after a tape-chosen byte} x response script (0..7 transient failures out of {connection reset, 500, 503, short body, response delayed past the client time-out}, then served / 404 / 400 / 403) x error-retry 0..5 x back-off base 1..500 ms, all in fake time; oracle: payload byte-identical, missing <=> ChunkMissing/NoSuchObject/false/404, failures never reported as missing or success, transient runs shorter than the budget invisible, requests seen == min(f+1, max(1, error-retry)), simulated time spent == documented linear back-off (+ time-outs); distinct = distinct (class incl. script shape, trace hash / tape); non-trivial = a transport fault fired or a multi-request session ran",
+		Rule:     "one case = one of {chunk GET/HEAD/PUT through the real RemoteHTTP client and HTTPHandler over an in-process transport, for every combination of client/server -u, upstream format, verify flags per hop; index GET/PUT through RemoteHTTPIndex and HTTPIndexHandler (optionally chained behind a second index server) and HEAD on the index handler; a casync-protocol session of 1..8 requests against ProtocolServer over a pipe with byte-wise fragmentation and the connection cut after a tape-chosen byte} x response script (0..7 transient failures out of {connection reset, 500, 503, short body, response delayed past the client time-out}, then served / 404 / 400 / 403) x error-retry 0..5 x back-off base 1..500 ms, all in fake time; oracle: payload byte-identical, missing <=> ChunkMissing/NoSuchObject/false/404, failures never reported as missing or success, transient runs shorter than the budget invisible, requests seen == min(f+1, max(1, error-retry)), simulated time spent == documented linear back-off (+ time-outs); distinct = distinct (class incl. script shape, trace hash / tape); non-trivial = a transport fault fired or a multi-request session ran; 1/300 of the cases start the real `desync chunk-server [-u] [-w]` or `desync index-server [-w]` on a loopback port over a local store and talk to it with the real HTTP client (present / missing / HEAD / PUT)",
 		Assumptions: []string{
 			"client and server agree on -u (the chunk file extension is part of the request path); mismatched pairs are a configuration error and not generated",
 			"after a missing chunk the protocol server ends the session; later requests on that session may fail but must not be answered wrongly",
@@ -175,7 +175,7 @@ func init() {
 	reg(&Prop{ID: "C05", Level: "exploration",
 		Quick:    Tier{Cases: 9600, PerJob: 600, Seconds: 70},
 		Thorough: Tier{Cases: 640000, PerJob: 8000, Seconds: 1500},
-		Rule:     "one case = random tree created as root on tmpfs (<= 40 entries, depth <= 5: nested and empty directories, files of 0..16 KiB, symlinks to anything, char/block devices, user xattrs, arbitrary uid/gid, permission + set-id/sticky bits, arbitrary ns mtimes, names with any bytes except '/' and NUL) x digest {SHA512/256, SHA256} x one of {catar: Tar -> UnTar; caidx+store: Tar -> pipe -> ChunkStream(n) -> index written and re-read -> UnTarIndex(n) with a slow, reordering store, all under the seeded scheduler; GNU-tar output parsed with archive/tar; tar-stream input built with archive/tar}; oracle: lstat/readlink/xattr/content/mtime snapshot of source and result equal (ranked categories), two packings byte-identical, chunked archive bytes == direct archive bytes; distinct = distinct (path, digest, size bucket, trace hash / tape); every case is non-trivial (a generated tree)",
+		Rule:     "one case = random tree created as root on tmpfs (<= 40 entries, depth <= 5: nested and empty directories, files of 0..16 KiB, symlinks to anything, char/block devices, user xattrs, arbitrary uid/gid, permission + set-id/sticky bits, arbitrary ns mtimes, names with any bytes except '/' and NUL) x digest {SHA512/256, SHA256} x one of {catar: Tar -> UnTar; caidx+store: Tar -> pipe -> ChunkStream(n) -> index written and re-read -> UnTarIndex(n) with a slow, reordering store, all under the seeded scheduler; GNU-tar output parsed with archive/tar; tar-stream input built with archive/tar}; oracle: lstat/readlink/xattr/content/mtime snapshot of source and result equal (ranked categories), two packings byte-identical, chunked archive bytes == direct archive bytes; distinct = distinct (path, digest, size bucket, trace hash / tape); every case is non-trivial (a generated tree); 1/60 of the cases run the real `desync tar` and `desync untar` binaries (catar file or -i with a local store, default or --digest sha256) on a generated tree with the same snapshot oracle",
 		Assumptions: []string{
 			"metadata fidelity is input coverage rather than simulation (DESIGN.md C05 honest limit); the simulated part is the five-stage chunked pipeline",
 			"GNU tar output: xattrs and sub-second mtimes are not compared (the format cannot carry them); a refusal by archive/tar is not a wrong result",
